@@ -252,6 +252,10 @@ def main():
             every = len(base) <= 4 or ck.thorough
             for pos in (range(len(base) + 1) if every else [rng.randint(0, len(base))]):
                 text = base[:pos] + [bad] + base[pos:]
+                if rng.random() < 0.3:
+                    # the very same defective line once more, elsewhere in the text: every copy is rejected
+                    q = rng.randint(0, len(text))
+                    text = text[:q] + [bad] + text[q:]
                 if rng.random() < 0.5:
                     # blank lines anywhere, also before the defective line: they are skipped but counted
                     for _ in range(rng.randint(1, 2)):
